@@ -88,6 +88,9 @@ OPTION_SPACE = {
 def frames_equal(a, b):
     if list(a.columns) != list(b.columns) or len(a) != len(b):
         return False
+    # the index is part of the caller's frame: its labels, its name(s), the name of the column axis
+    if list(a.index) != list(b.index) or list(a.index.names) != list(b.index.names) or list(a.columns.names) != list(b.columns.names):
+        return False
     for c in a.columns:
         x, y = a[c], b[c]
         if str(x.dtype) != str(y.dtype):
